@@ -183,7 +183,7 @@ impl Prop for C18 {
             Leg {
                 name: "random",
                 kind: LegKind::Random {
-                    cases: tier.pick(6000, 120_000),
+                    cases: tier.pick(300000, 2000000),
                 },
                 workers: 16,
                 build: Build::Normal,
